@@ -17,7 +17,21 @@ LT = _LT[P.get("leaf", "int")]
 VT = _LT[P.get("vleaf", "int")]
 
 
+DOCKIND = P.get("doc", 0)
+KEYS = ["c", "d", ""]
+
+
 def mkdoc(l0: Any, l1: Any, l2: Any, l3: Any, n: int) -> Any:
+    if DOCKIND == 1:
+        # an array of containers: moving an element changes what later indices denote
+        arr2: List[Any] = []
+        if n >= 1:
+            arr2.append({"p": l0})
+        if n >= 2:
+            arr2.append([l1])
+        if n >= 3:
+            arr2.append({"q": l2, "p": [l3]})
+        return {"a": arr2, "b": {"c": l3}}
     arr = []
     if n >= 1:
         arr.append(l0)
@@ -32,7 +46,7 @@ def _subst(x: Any, i: int, j: int, v: Any, w: Any) -> Any:
     if isinstance(x, list):
         return [_subst(e, i, j, v, w) for e in x]
     if isinstance(x, dict):
-        return {k: _subst(e, i, j, v, w) for k, e in x.items()}
+        return {(_subst(k, i, j, v, w) if isinstance(k, str) and k.startswith("$k") else k): _subst(e, i, j, v, w) for k, e in x.items()}
     if x == "$i":
         return i
     if x == "$j":
@@ -43,6 +57,10 @@ def _subst(x: Any, i: int, j: int, v: Any, w: Any) -> Any:
         return w
     if x == "$vc":
         return [v, {"k": w}]
+    if x == "$ki":
+        return pick(KEYS, i % len(KEYS)) if isinstance(i, int) else "c"
+    if x == "$kj":
+        return pick(KEYS, j % len(KEYS)) if isinstance(j, int) else "c"
     return x
 
 
